@@ -485,7 +485,23 @@ def unquote_model(s, encoding="utf-8", errors="replace"):
         else:
             out = sconcat(out, s[i:i + 1].encode("utf-8"))
             i += 1
+    if encoding is _BYTES:
+        return out
     return out.decode(encoding or "utf-8", errors or "replace")
+
+
+_BYTES = object()
+
+
+def punquote_to_bytes(s):
+    """full percent-decoding to bytes (plain or symbolic text): the byte content a URL denotes"""
+    from urllib.parse import unquote_to_bytes
+
+    from symex.seq import SSeq
+
+    if isinstance(s, SSeq):
+        return unquote_model(s, _BYTES)
+    return unquote_to_bytes(s)
 
 
 def make_stubs():
